@@ -5,6 +5,8 @@ package main
 // Loads the texts in the given order into one set, runs Process and observes what the `process` dump does not:
 //   print   per module (bare names, sorted): Entry.Print rendered twice (text of the first, whether the second equals it)
 //   byns    per namespace of a loaded module: FindModuleByNamespace asked twice: the FullName found or "ERR: ..."
+//   enums   per leaf whose type (or union member) is an enumeration or bits: Names/Values/NameMap/ValueMap rendered
+//           twice, and whether ValueMap agrees with Name(v)
 //   getmod  for the first two module names: GetModule called twice on a second set holding the same texts, then once
 //           more after flipping IgnoreDeviateNotSupported, next to the answers of fresh sets with either option value
 //           (answer = error list, or "tree:" + hash of the Print rendering)
@@ -48,6 +50,69 @@ type c05Probe struct {
 	Print  map[string][]string          `json:"print"`
 	ByNS   map[string][]string          `json:"byns"`
 	GetMod map[string]map[string]string `json:"getmod"`
+	Enums  map[string][]string          `json:"enums"` // path of a leaf with an enumeration/bits type -> rendering, "true" if a second rendering is equal, "true" if ValueMap agrees with Name()
+}
+
+// c05Enum renders everything an EnumType answers: Names, Values, NameMap, ValueMap (sorted by key), Name(v) per value.
+func c05Enum(e *yang.EnumType) (string, bool) {
+	var b strings.Builder
+	fmt.Fprintf(&b, "names=%v values=%v namemap=[", e.Names(), e.Values())
+	nm := e.NameMap()
+	var ns []string
+	for n := range nm {
+		ns = append(ns, n)
+	}
+	sort.Strings(ns)
+	for _, n := range ns {
+		fmt.Fprintf(&b, "%s=%d ", n, nm[n])
+	}
+	b.WriteString("] valuemap=[")
+	vm := e.ValueMap()
+	var vs []int64
+	for v := range vm {
+		vs = append(vs, v)
+	}
+	sort.Slice(vs, func(i, j int) bool { return vs[i] < vs[j] })
+	agree := true
+	for _, v := range vs {
+		fmt.Fprintf(&b, "%d=%s ", v, vm[v])
+		if e.Name(v) != vm[v] {
+			agree = false
+		}
+	}
+	b.WriteString("]")
+	return b.String(), agree
+}
+
+func c05Enums(e *yang.Entry, path string, out map[string][]string, depth int) {
+	if e == nil || depth > 40 {
+		return
+	}
+	var visit func(t *yang.YangType, p string, d int)
+	visit = func(t *yang.YangType, p string, d int) {
+		if t == nil || d > 6 {
+			return
+		}
+		for _, et := range []*yang.EnumType{t.Enum, t.Bit} {
+			if et != nil {
+				r1, agree := c05Enum(et)
+				r2, _ := c05Enum(et)
+				out[p] = []string{r1, strconv.FormatBool(r1 == r2), strconv.FormatBool(agree)}
+			}
+		}
+		for i, u := range t.Type {
+			visit(u, fmt.Sprintf("%s|%d", p, i), d+1)
+		}
+	}
+	visit(e.Type, path, 0)
+	var keys []string
+	for k := range e.Dir {
+		keys = append(keys, k)
+	}
+	sort.Strings(keys)
+	for _, k := range keys {
+		c05Enums(e.Dir[k], path+"/"+k, out, depth+1)
+	}
 }
 
 func c05Load(opts string, names, texts []string, flip bool) *yang.Modules {
@@ -84,7 +149,7 @@ func init() {
 		for i := 0; i < n; i++ {
 			names[i], texts[i] = string(unhex(toks[2+2*i])), string(unhex(toks[3+2*i]))
 		}
-		out := &c05Probe{Errors: []string{}, Print: map[string][]string{}, ByNS: map[string][]string{}, GetMod: map[string]map[string]string{}}
+		out := &c05Probe{Errors: []string{}, Print: map[string][]string{}, ByNS: map[string][]string{}, GetMod: map[string]map[string]string{}, Enums: map[string][]string{}}
 		ms := c05Load(opts, names, texts, false)
 		errs := ms.Process()
 		for _, err := range errs {
@@ -104,6 +169,7 @@ func init() {
 				e.Print(&b1)
 				e.Print(&b2)
 				out.Print[k] = []string{b1.String(), strconv.FormatBool(b1.String() == b2.String())}
+				c05Enums(e, "/"+k, out.Enums, 0)
 			}
 		}
 		for _, k := range mods {
